@@ -56,6 +56,11 @@ def failing_ops(base):
     for o in base:
         if o["op"] == "hlink":
             out += [{"op": "hlink", "p": o["p"], "t": o["t"]}, {"op": "hlink", "p": o["p"], "t": d}]
+    # names with an empty component
+    out += [{"op": "mkds", "p": "//", "dt": "i32", "dims": [2]}, {"op": "mkds", "p": "/", "dt": "i32", "dims": [2]},
+            {"op": "mkds", "p": (gs[0] if gs else "") + "//", "dt": "i32", "dims": [2]}, {"op": "mkds", "p": "/tr/", "dt": "i32", "dims": [2]},
+            {"op": "mkds", "p": "//dbl", "dt": "i32", "dims": [2]}, {"op": "mkgroup", "p": "//"}, {"op": "mkgroup", "p": "/tg/"},
+            {"op": "hlink", "p": "//", "t": d}, {"op": "hlink", "p": "/hl/", "t": d}, {"op": "slink", "p": "//", "t": "/x"}]
     # sizes whose byte count overflows 64 bits / is absurd: refused or not, the call must be all or nothing
     huge = 1 << 62
     out += [{"op": "mkds", "p": "/huge1", "dt": "i64", "dims": [huge], "chunk": [2]},
